@@ -349,8 +349,9 @@ class Check:
             "wall_s": round(wall, 3),
             "violations": len(final_viol),
         }
-        os.makedirs(os.path.join(VERIF, "evidence"), exist_ok=True)
-        with open(os.path.join(VERIF, "evidence", f"{self.prop}.json"), "w") as f:
+        evdir = os.environ.get("RXVC_EVIDENCE_DIR") or os.path.join(VERIF, "evidence")  # (the seed matrix writes to a scratch directory)
+        os.makedirs(evdir, exist_ok=True)
+        with open(os.path.join(evdir, f"{self.prop}.json"), "w") as f:
             json.dump(ev, f, indent=1, default=str)
         for ln in lines:
             print(ln)
